@@ -215,6 +215,17 @@ func runBinary(c BinaryCase) (evid.Result, error) {
 		}
 		mid := int64(id.MID)
 		off := c.Docs[e.n].OffMs
+		// the receive time lies somewhere between t0 and t1: a document whose place relative to
+		// the window differs between these two ends is not judged (a slow machine, not a defect)
+		if off != 0 {
+			el := t1.Sub(t0).Milliseconds() + 2
+			in0 := off < 0 && -off < c.DriftMs || off > 0 && off < c.FutureMs
+			in1 := off-el < 0 && -(off-el) < c.DriftMs || off-el > 0 && off-el < c.FutureMs
+			if in0 != in1 || (off > 0) != (off-el > 0) {
+				res.Labels = append(res.Labels, "window-border-inside-the-request-time:not-judged")
+				continue
+			}
+		}
 		if e.own != 0 {
 			if mid != e.own {
 				return res, evid.Failf("mid-own-time", "[%s] document n=%d carries a time %d ms from now, inside the allowed window, but its id says %d (own time %d, request between %d and %d)", flags, e.n, off, mid, e.own, t0.UnixMilli(), t1.UnixMilli())
